@@ -22,12 +22,15 @@ def run(m):
     f = os.path.join(d, os.path.basename(m["file"])); open(f, "w").write(new)
     env = dict(os.environ, VERIF_SCRATCH=os.path.join(d, "scratch"), VERIF_DIR=d + "/verif")
     os.makedirs(d + "/verif", exist_ok=True)
-    for sub in ("specs", "trusted", "harness", "known_findings.json"):
+    for sub in ("specs", "trusted", "harness", "known", "known_findings.json"):
         if os.path.exists(os.path.join(VERIF, sub)):
             os.symlink(os.path.join(VERIF, sub), os.path.join(d, "verif", sub))
     cmd = [os.path.join(VERIF, "bin/govc"), "check", m["property"], "--overlay", m["file"] + "=" + f]
     if m.get("fn"): cmd += ["--fn", m["fn"]]
-    p = subprocess.run(cmd, env=env, capture_output=True, text=True, timeout=900)
+    try:
+        p = subprocess.run(cmd, env=env, capture_output=True, text=True, timeout=3000)
+    except subprocess.TimeoutExpired:
+        return m, "TIMEOUT", "check did not finish within 3000 s"
     out = p.stdout + p.stderr
     hit = [l for l in out.splitlines() if l.startswith("VIOLATION") and m["expect"] in l]
     if hit: return m, "CAUGHT", hit[0]
